@@ -241,8 +241,19 @@ _corpus_prop("C05", ["gsc_first_true_at:run", "gsc_first_true_at:step", "gsc_fir
                      "gsc:WeightedEvalLimit", "gsc:RootStopped", "gsc:AllStopped", "gsc:NoActiveNonroot", "gsc:Scripted"], minimize=True)
 _corpus_prop("C06", ["lsc_true", "ev:lsc", "rounds_with_sprouts", "hibernation_on", "hibernation_off"])
 _corpus_prop("C07", ["rounds_with_sprouts", "rounds_with_several_parents", "levels=3", "levels=1", "custom_deme_class"])
-_corpus_prop("C08", ["rounds_with_sprouts", "rounds_where_filters_removed", "rounds_with_several_parents", "lsc_true"],
-             tables=("sprout",))
+_c08_base = _corpus_prop("C08", ["rounds_with_sprouts", "rounds_where_filters_removed", "rounds_with_several_parents", "lsc_true"],
+                         tables=("sprout",))
+
+
+@prop("C08")
+def c08(tier: str) -> PropResult:
+    from .mod_apalache import levellimit_inductive
+    res = _c08_base(tier)
+    ap = levellimit_inductive(tier)
+    res.coverage["unbounded_L_inductive_invariant"] = ap
+    if ap.get("available") and (ap["base"] != "NoError" or ap["step"] != "NoError"):
+        res.violations.append(Violation("C08", "model:LevelLimitInd.IndInv", "inductive invariant of the counter abstraction fails", ap))
+    return res
 _corpus_prop("C09", ["far_atoms", "rounds_with_sprouts"], with_model=False, tables=("sprout",))
 _corpus_prop("C10", ["rounds_with_sprouts", "rounds_where_filters_removed", "rounds_with_several_parents", "maximize"],
              with_model=False, tables=("sprout",))
